@@ -6,13 +6,16 @@ from ..wire import OutOfUniverse
 
 ID = 'C07'
 LEAN_TARGETS = ['Properties.C07']
-THEOREMS = ['Hash.C07_N_spoof', 'Hash.C07_N_ordered_repeats', 'Hash.C07_N_no_hash_ambiguous', 'Hash.C07_str_vs_none']
+THEOREMS = ['Hash.C07_N_spoof', 'Hash.C07_N_ordered_repeats', 'Hash.C07_N_no_hash_ambiguous', 'Hash.C07_str_vs_none',
+            'DiffIO.C07_equal_digests_equivalent', 'DiffIO.C07_different_content_differs', 'DiffIO.C07_scalar_injective', 'DiffIO.C07_list_members']
 RULE = ('all pairs from a pool of nested values that deliberately contains near-collisions (same items in different containers, nestings that flatten to the same '
         'item sequence, repeats in different positions, strings next to the values they resemble) x the three claimed modes; hash equality is compared with an '
         'independent reference equivalence. distinct = distinct (a, b, mode); non-trivial = a and b are not equivalent')
 TRUSTED_BASE = ['hashlib.sha256 assumed collision-free on the inputs considered',
-                'the full injectivity theorem (framing is uniquely decodable under hex digests) is NOT yet proved in Lean: only the negative witnesses, '
-                'the tag lemma and the model correspondence are machine-checked; the claim inside the domain rests on the evaluation']
+                'the injectivity theorem is proved for the model in the set and multiset modes (order ignored); the ordered mode (ignore_iterable_order=False) is covered by '
+                'the negative witness F7, the correspondence and the evaluation only',
+                'hypotheses of the theorem: the hasher is injective with non-empty digests free of , | : ; (satisfiable: an escaping function is exhibited in Lean); for SHA-256 hex '
+                'digests the second part is a fact, the first the usual collision-freedom idealisation']
 ASSUMPTIONS = ['NoSpoof: no str leaf spells the serialisation of a non-str value (finding F5)', 'NoNumAlias (finding F6/F18)',
                'ordered mode: lists without repeated items (finding F7); sets are compared as sets in every mode']
 
